@@ -180,8 +180,16 @@ func bindsJSON() []any {
 	return out
 }
 
+const scrambleDef = "(defn scramble [v] (cond (array? v) (begin (for [(def i 0) (< i (len v)) (def i (+ i 1))] (scramble (aget v i)) (aset v i 99)) nil) (null? v) nil (list? v) (begin (map scramble v) nil) nil))\n"
+
 func runTemplate(se *semEnv, id string, t tmpl) quasiCase {
 	text := "^" + renderTmpl(t) + "\n"
+	if strings.HasPrefix(id, "tw") {
+		// the template is evaluated by a function called twice; every array reachable from the
+		// first result is overwritten in place before the second call: a template is rebuilt by
+		// every evaluation, so the second result is again exactly the substitution
+		text = scrambleDef + "(defn mkt [] ^" + renderTmpl(t) + ")\n(def r1 (mkt))\n(scramble r1)\n(mkt)\n"
+	}
 	o := evalSafe(se.env, text)
 	var out any
 	if o.Kind == "val" {
@@ -334,14 +342,13 @@ func init() {
 		w := newWriter(c.out)
 		defer w.close()
 		if c.replay != "" {
-			se := quasiEnv()
 			readLines(c.replay, func(line []byte) {
 				var in quasiCase
 				if err := json.Unmarshal(line, &in); err != nil {
 					fatal("bad replay: %v", err)
 				}
 				if in.Kind == "template" {
-					w.write(runTemplate(se, in.ID, in.Tmpl))
+					w.write(runTemplate(quasiEnv(), in.ID, in.Tmpl))
 					return
 				}
 				var mi int
@@ -388,6 +395,19 @@ func init() {
 					continue
 				}
 				emit(tSeq("hashform", keys[0], v1, keys[1], v2))
+			}
+		}
+		// evaluated twice with the first result scrambled in between (templates with array parts)
+		for _, a := range elems {
+			for _, b := range nestedTemplates() {
+				if c.mine(idx) {
+					w.write(runTemplate(se, fmt.Sprintf("tw%d", idx), tSeq("list", a, b, tSeq("arr", tAtom([]any{"int", 0}), tAtom([]any{"int", 0})))))
+				}
+				idx++
+				if c.mine(idx) {
+					w.write(runTemplate(se, fmt.Sprintf("tw%d", idx), tSeq("arr", tSeq("arr", a), b)))
+				}
+				idx++
 			}
 		}
 		// depth 3: containers of nested containers
